@@ -220,7 +220,7 @@ def cases(draw):
         if draw(st.integers(0, 4)):
             d["id"] = draw(st.sampled_from(UUIDS[:3] + [UUIDS[3 + i]]))
         if draw(st.booleans()):
-            d["_path"] = draw(st.sampled_from(["/r/a/rule_one_long_name.yml", "/r/b/rule_one_long_name.yml", "/r/c/rule_one_long_name.yml", f"/r/a/unique_rule_name_{i}.yml", "/r/a/x.yml"]))
+            d["_path"] = draw(st.sampled_from(["/r/a/rule_one_long_name.yml", "/r/b/rule_one_long_name.yml", "/r/c/rule_one_long_name.yml", "/q/a/rule_one_long_name.yml", "/q/z/a/rule_one_long_name.yml", "a/rule_one_long_name.yml", "/rule_one_long_name.yml", "/q/a/x.yml", f"/r/a/unique_rule_name_{i}.yml", "/r/a/x.yml"]))
         if draw(st.booleans()):
             d["tags"] = draw(st.lists(st.sampled_from(["attack.t1059", "attack.execution", "tlp.red", "unknown.ns", "cve.2024-1", "attack.execution"]), max_size=3))
         docs.append(d)
